@@ -96,9 +96,8 @@ FINDING_IDS = {
     "alpha_reversed": "F-C15-alpha-reversed",
     "identity_exp": "F-C15-identity-exp",
     "constdiag_solve_triangular": "F-C15-constdiag-solve-triangular",
-    "svd_added_diag_singular": "F-C15-svd-added-diag-singular-base",
     "diag_solve_triangular_left": "F-C15-diag-solve-triangular-left",
-    "identity_mul_matrix": "F-C15-identity-mul-matrix",
+    "transpose_same_dim": "F-C15-transpose-same-dim",
     "isclose_reversed_rtol": "F-C15-isclose-reversed-rtol",
     "diagonal_args_ignored": "F-C15-diagonal-args-ignored",
     "explog_offdiag": "F-C15-exp-log-offdiagonal",
@@ -181,8 +180,6 @@ SUBCLASS_PAIRS = [
     ("Kronecker", "KroneckerDiag", "any"),
     ("Kronecker", "KroneckerTri", "any"),
     ("Sum", "PsdSum", "psd"),
-    ("Root", "Chol", "psd"),
-    ("Root", "LowRankRoot", "psd"),
     ("AddedDiag", "KroneckerAddedDiag", "psd"),
     ("AddedDiag", "LowRankRootAddedDiag", "psd"),
 ]
@@ -292,6 +289,8 @@ def g_arith(draw, name, order, depth):
         r = _op(draw, "any", depth)
         shp = refmodel.shape(r)
         dt = R.dtype_of(r)
+        if kind == "scalar" and b in ("add", "sub") and r["op"] == "Zero":
+            kind = "tensor"  # (Zero +- number returns the bare python number: C02's Zero-arithmetic domain)
         if kind == "scalar":
             other = {"k": "scalar", "s": _scalar(draw, nonzero=(b == "div"))}
         elif kind == "tensor0":
@@ -305,14 +304,11 @@ def g_arith(draw, name, order, depth):
             other = {"k": "tensor", "t": _tensor_like(draw, tshape, dt, 1 if b == "div" else -16, 16, nonzero=(b == "div"))}
             if b == "div" and draw(st.booleans()):
                 other["t"]["lit"] = gen._map2(other["t"]["lit"], lambda v: -v)
-    if b == "sub" and kind == "op" and r["op"] == "Root" and other["recipe"]["op"] in ("Chol", "LowRankRoot"):
-        # Root - <Root subclass instance> is served by the subclass' __rsub__ = (-b) + a, i.e. add_low_rank on a negative
-        # definite left operand: the PSD-left-operand precondition of `+ RootLinearOperator` is C02's domain
+    if b in ("add", "sub") and kind == "op" and r["op"] == "Root" and other["recipe"]["op"] in ("Chol", "LowRankRoot"):
+        # Root +- <instance of a Root subclass> is served by the subclass' reflected handler ((-b) + a, b + a): that is
+        # add_low_rank on an operand it was not written for -- the preconditions of `+ RootLinearOperator` are C02's domain
         shp = refmodel.shape(other["recipe"])
         other = {"k": "op", "recipe": _recipe_of(draw, "psd", shp[-1], shp[-1], shp[:-2], R.dtype_of(r), 1, head="Dense")}
-    if is_open("identity_mul_matrix") and _t_identity_mul({"kind": "reg", "fn": name, "recipe": r, "other": other}):
-        shp = refmodel.shape(r)
-        r = _recipe_of(draw, "any", shp[-1], shp[-1], shp[:-2], R.dtype_of(r), 1, head="Diag")
     if b in ("add", "sub") and form in ("func", "tmethod") and draw(st.integers(0, 7 if name.startswith("torch.Tensor.") else 2)) == 0:
         kw["alpha"] = draw(st.sampled_from([2, -1, 0.5, 3]))
         if is_open("alpha_reversed") and _t_alpha({"kind": "reg", "fn": name, "order": order, "other": other, "kw": kw}):
@@ -430,6 +426,8 @@ def g_dim(draw, name, order, depth):
                 d1, d2 = d2, d1
         else:
             d1, d2 = draw(st.integers(0, nd - 1)), draw(st.integers(0, nd - 1))
+        if d1 == d2 and is_open("transpose_same_dim"):
+            d1, d2 = nd - 2, nd - 1
         kw["dim1"] = d1 - nd if draw(st.booleans()) else d1
         kw["dim2"] = d2 - nd if draw(st.booleans()) else d2
     elif fam == "permute":
@@ -474,8 +472,7 @@ def g_direct(draw, name, order, depth):
             if u:
                 kw["upper"] = u == 2
     elif fam in ("eigh", "eigvalsh", "svd"):
-        ex = ADDED_DIAG if (fam == "svd" and is_open("svd_added_diag_singular")) else ()
-        r = _pd_op(draw, depth, psd_ok=True, tri=False, extra=ex)
+        r = _pd_op(draw, depth, psd_ok=True, tri=False)
     elif fam == "solve":
         r = _pd_op(draw, depth)
     elif fam == "solve_triangular":
@@ -512,6 +509,9 @@ def g_direct(draw, name, order, depth):
             other = {"k": "tensor", "t": _tensor_like(draw, tuple(shp[:-2]) + (k, shp[-1]), dt), "rk": "left_false"}
         else:
             kind, rl = draw(gen.rhs_for(shp, dt, allow_vector=(fam == "solve" and len(shp) == 2)))
+            if fam == "solve" and len(shp) > 2 and tuple(L.shape_of(rl)) == tuple(shp[:-1]):
+                # torch.linalg.solve reads a B of shape A.shape[:-1] as a batch of VECTORS: ambiguous, use a full batch
+                kind, rl = "batched", _tensor_like(draw, tuple(shp[:-1]) + (2,), dt)
             other = {"k": "tensor", "t": rl, "rk": kind}
     case = {"kind": "reg", "fn": name, "order": order, "form": "func", "recipe": r, "kw": kw}
     if other is not None:
@@ -987,7 +987,8 @@ def _plan(case):
                     inner = max(A.shape[-2:])  # computed as a product with a vector of ones
             elif fam == "prod":
                 S = torch.prod(Aabs, *args, **kws)
-                S = torch.full_like(S, float(S.max()) if S.numel() else 0.0) * tol.root_slack(dt, nmat) * A.shape[kw["dim"]]
+                # product over a batch dimension = repeated elementwise products of root decompositions (jittered Cholesky)
+                S = (torch.full_like(S, float(S.max()) if S.numel() else 0.0) + 1e-6) * tol.root_slack(dt, nmat) * A.shape[kw["dim"]]
                 inner = nmat
             else:
                 S, inner = tf(Aabs, *args, **kws), 1
@@ -1094,7 +1095,31 @@ def _run(thunk):
         return False, e
 
 
-def _check_reg(case):
+class _Leg2(Exception):
+    def __init__(self, symptom, detail):
+        super().__init__(detail)
+        self.symptom = symptom
+        self.detail = detail
+
+
+class _BuildFailed(Exception):
+    pass
+
+
+def _dense_equivalent(case):
+    """The same call on plain DenseLinearOperators holding the same matrices (for blame, see _check_reg)."""
+    def dense_of(rec):
+        dt = R.dtype_of(rec)
+        return {"op": "Dense", "t": L.lit(refmodel.dense(rec).to(L.DT[dt]).tolist(), dt)}
+
+    c = dict(case)
+    c["recipe"] = dense_of(case["recipe"])
+    if (case.get("other") or {}).get("k") == "op":
+        c["other"] = {"k": "op", "recipe": dense_of(case["other"]["recipe"])}
+    return c
+
+
+def _check_reg(case, allow_blame=True):
     name, order = case["fn"], case["order"]
     r = case["recipe"]
     head = r["op"]
@@ -1122,96 +1147,128 @@ def _check_reg(case):
         # a Mul node is *defined* through root decompositions of both factors (Cholesky with the documented jitter, or
         # symeig): normwise root-decomposition slack instead of the exact-structure bound (same policy as C01)
         sl = tol.root_slack(R.dtype_of(r), refmodel.shape(r)[-1])
-        bounds = [(torch.full_like(bd, float(bd.max())) if torch.is_tensor(bd) and bd.numel() else bd) * sl for bd in bounds]
+        bounds = [((torch.full_like(bd, float(bd.max())) if torch.is_tensor(bd) and bd.numel() else bd) + 1e-6 * tol.U[R.dtype_of(r)]) * sl for bd in bounds]
         labels.append("approx:mul_node")
 
     def fresh():
         try:
             op = R.build(r)
-        except Exception as e:
-            raise Violation("C15|%s|%s|%s|build:%s" % (name, order, head, X.describe(e)), "constructor raised %r for %s" % (e, R.class_path(r)))
-        x = None
-        if mk_x is not None:
-            try:
-                x = mk_x()
-            except Exception as e:
-                raise Violation("C15|%s|%s|%s|build-operand:%s" % (name, order, head, X.describe(e)), "operand constructor raised %r" % (e,))
+            x = mk_x() if mk_x is not None else None
+        except Exception as e:  # a constructor refusing generated arguments is C01's / C02's verdict, not a dispatch outcome
+            raise _BuildFailed(X.describe(e))
         return op, x
 
+    okind = (case.get("other") or {}).get("k", "-")
+    if okind == "near":
+        okind = "tensor"
+    elif okind == "tensor" and L.shape_of(case["other"]["t"]) == ():
+        okind = "tensor0"
+    out = {
+        "nontrivial": False,
+        "key": {"fn": name, "order": order, "form": case.get("form"), "cp": R.class_path(r), "ok": okind, "kw": case.get("kw"), "shape": list(refmodel.shape(r)), "oshape": list(L.shape_of(case["other"]["t"])) if "t" in (case.get("other") or {}) else None, "r": r},
+        "labels": labels,
+        "sample": {"fn": name, "order": order, "form": case.get("form"), "recipe": r, "operand": okind, "kw": case.get("kw")},
+    }
     seed = torch.initial_seed()
-    op_m, x_m = fresh()
-    torch.manual_seed(seed)
-    ok_m, res_m = _run(lambda: meth(op_m, x_m))
-    op_l, x_l = fresh()
+    try:
+        op_m, x_m = fresh()
+        torch.manual_seed(seed)
+        ok_m, res_m = _run(lambda: meth(op_m, x_m))
+        op_l, x_l = fresh()
+    except _BuildFailed as e:
+        labels.append("outcome:build_failed")
+        labels.append("build_failed:%s" % e)
+        return out
     torch.manual_seed(seed)
     ok_l, res_l = _run(lambda: lib(op_l, x_l))
 
     cls = type(op_l)
     base_meth = getattr(_lo().LinearOperator, info["mname"], None)
     overrides = getattr(cls, info["mname"], None) is not base_meth
-    okind = (case.get("other") or {}).get("k", "-")
-    if okind == "near":
-        okind = "tensor"
-    elif okind == "tensor" and L.shape_of(case["other"]["t"]) == ():
-        okind = "tensor0"
+    rerouted = False
     if okind == "op":
         labels.append("operand_head:" + case["other"]["recipe"]["op"])
         if order == "first" and type(x_l) is not cls and isinstance(x_l, cls):
+            rerouted = True
             labels.append("route:second_operand_is_subclass_instance")
     labels += ["operand:" + okind, "overrides:%s" % bool(overrides), "dtype:" + R.dtype_of(r), "batch:%d" % (len(refmodel.shape(r)) - 2)]
     if case.get("argform"):
         labels.append("diagonal_args:" + case["argform"])
-    nontrivial = order == "second" or overrides or okind in ("scalar", "op")
-    out = {
-        "nontrivial": bool(nontrivial),
-        "key": {"fn": name, "order": order, "form": case.get("form"), "cp": R.class_path(r), "ok": okind, "kw": case.get("kw"), "shape": list(refmodel.shape(r)), "oshape": list(L.shape_of(case["other"]["t"])) if "t" in (case.get("other") or {}) else None, "r": r},
-        "labels": labels,
-        "sample": {"fn": name, "order": order, "form": case.get("form"), "recipe": r, "operand": okind, "kw": case.get("kw")},
-    }
+    out["nontrivial"] = bool(order == "second" or overrides or okind in ("scalar", "op"))
 
     # ---- leg 1: torch.f against the method resolved by name on the subclass
+    leg1 = True
     if not ok_m:
-        if ok_l:
+        if ok_l and not rerouted:
             fail("returned-but-method-raised:" + type(res_m).__name__, "torch function returned %s while %s.%s raised %r" % (_tsig(res_l), cls.__name__, info["mname"], res_m))
-        if type(res_l) is not type(res_m):
-            fail("exc-mismatch:%s-vs-%s" % (type(res_l).__name__, type(res_m).__name__), "torch function raised %r, %s.%s raised %r" % (res_l, cls.__name__, info["mname"], res_m))
-        declined = X.is_declined(res_m, "torch") or X.is_declined(res_m, short(name))
-        labels.append("outcome:declined" if declined else "outcome:method_raised:" + type(res_m).__name__)
-        labels.append("fo:%s|%s|%s" % (name, order, "declined" if declined else "raised"))
-        return out
-    if not ok_l:
+        if ok_l:
+            # torch handed the call to the reflected method of the second operand (an instance of a subclass of the first
+            # one's class), which served it although the first operand's own method fails: judged by the dense leg only
+            leg1 = False
+            labels.append("leg1:skipped(reflected method served the call)")
+        else:
+            if type(res_l) is not type(res_m) and not rerouted:
+                fail("exc-mismatch:%s-vs-%s" % (type(res_l).__name__, type(res_m).__name__), "torch function raised %r, %s.%s raised %r" % (res_l, cls.__name__, info["mname"], res_m))
+            declined = X.is_declined(res_m, "torch") or X.is_declined(res_m, short(name))
+            labels.append("outcome:declined" if declined else "outcome:method_raised:" + type(res_m).__name__)
+            labels.append("fo:%s|%s|%s" % (name, order, "declined" if declined else "raised"))
+            return out
+    elif not ok_l:
         fail("exc:" + X.describe(res_l), "torch function raised %r while %s.%s returned %s" % (res_l, cls.__name__, info["mname"], _tsig(res_m)))
-    rerouted = "route:second_operand_is_subclass_instance" in labels
-    # (when torch hands the call to the handler of a subclass instance in second position, the reflected method builds
-    #  the result: an operator of another class denoting the same matrix is fine, Tensor-vs-operator is not)
-    if (_ksig(res_l) != _ksig(res_m)) if rerouted else (_tsig(res_l) != _tsig(res_m)):
+    elif (_ksig(res_l) != _ksig(res_m)) if rerouted else (_tsig(res_l) != _tsig(res_m)):
+        # (a rerouted call may legitimately build an operator of another class denoting the same matrix)
         fail("type", "torch function returned %s, %s.%s returned %s" % (_tsig(res_l), cls.__name__, info["mname"], _tsig(res_m)))
     if info.get("nogen"):
         labels.append("outcome:nogen")
         return out
-    try:
-        nl = norm(res_l)
-    except _Bad as e:
-        fail(e.symptom, "torch function result: " + e.detail)
-    except Exception as e:
-        fail("exc:" + X.describe(e), "densifying the torch function result raised %r" % (e,))
-    try:
-        nm = norm(res_m)
-    except _Bad as e:
-        fail(e.symptom + "(method)", "method result: " + e.detail)
-    except Exception as e:
-        fail("exc(method):" + X.describe(e), "densifying the method result raised %r" % (e,))
-    for (what, vl), (_, vm), bnd in zip(nl, nm, bounds):
+
+    def legs():
         try:
-            _cmp(vl, vm.to(F64), bnd, "torch function vs method (%s)" % what)
+            nl = norm(res_l)
         except _Bad as e:
-            fail("dispatch-" + e.symptom, e.detail)
-    # ---- leg 2: against the dense computation (ORDER and SIGN of the operands as written)
-    for (what, vl), (_, vr), bnd in zip(nl, refv, bounds):
-        try:
-            _cmp(vl, vr, bnd, "torch function vs dense (%s)" % what)
-        except _Bad as e:
+            raise _Leg2(e.symptom, "torch function result: " + e.detail)
+        except Exception as e:
+            raise _Leg2("exc:" + X.describe(e), "densifying the torch function result raised %r" % (e,))
+        if leg1:
+            try:
+                nm = norm(res_m)
+            except _Bad as e:
+                fail("dispatch-" + e.symptom, "method result (the torch function result was well-formed): " + e.detail)
+            except Exception as e:
+                fail("dispatch-exc:" + X.describe(e), "densifying the method result raised %r (the torch function result densified)" % (e,))
+            for (what, vl), (_, vm), bnd in zip(nl, nm, bounds):
+                try:
+                    _cmp(vl, vm.to(F64), bnd, "torch function vs method (%s)" % what)
+                except _Bad as e:
+                    fail("dispatch-" + e.symptom, e.detail)
+        # ---- leg 2: against the dense computation (ORDER and SIGN of the operands as written)
+        for (what, vl), (_, vr), bnd in zip(nl, refv, bounds):
+            try:
+                _cmp(vl, vr, bnd, "torch function vs dense (%s)" % what)
+            except _Bad as e:
+                raise _Leg2(e.symptom, e.detail)
+
+    try:
+        legs()
+    except _Leg2 as e:
+        # Blame.  torch.f and the method agree with each other but not with the dense computation.  C15 owns the handler,
+        # the tables, the base-class public methods (argument handling, result conventions) and the subclass overrides OF
+        # THE REGISTERED METHODS; the private hooks (_transpose_nonbatch, _diagonal, _sum_batch, _mul_matrix, _svd, ...)
+        # are the objects of C01-C06/C14.  If the class does not override the registered method and the very same call
+        # on DenseLinearOperators holding the same matrices passes, the mismatch lives in such a hook: counted, not raised.
+        excused = False
+        if allow_blame and not overrides and head != "Dense":
+            try:
+                _check_reg(_dense_equivalent(case), allow_blame=False)
+                excused = True
+            except (Violation, HarnessError):
+                excused = False
+        if not excused:
             fail(e.symptom, e.detail)
+        labels.append("outcome:blamed_private_hook")
+        labels.append("blamed:%s|%s|%s" % (short(name), head, e.symptom.split(":")[0]))
+        labels.append("fo:%s|%s|blamed" % (name, order))
+        return out
     labels.append("outcome:value")
     labels.append("fo:%s|%s|value" % (name, order))
     return out
@@ -1405,17 +1462,11 @@ def _t_diag_left(case):
     return gen.is_diag_instance(r) and r["op"] not in ("ConstantDiag", "Identity")
 
 
-def _t_identity_mul(case):
-    if case.get("kind") != "reg" or short(case["fn"]) not in ("mul", "div") or case["recipe"]["op"] != "Identity":
+def _t_transpose_same(case):
+    if case.get("kind") != "reg" or short(case["fn"]) != "transpose":
         return False
-    o = case.get("other") or {}
-    if o.get("k") == "op":
-        return True
-    return o.get("k") == "tensor" and int(torch.Size(L.shape_of(o["t"])).numel()) > 1
-
-
-def _t_svd(case):
-    return case.get("kind") == "reg" and short(case["fn"]).endswith("svd") and any(n["op"] in ADDED_DIAG for n in R.walk(case["recipe"]))
+    nd = len(refmodel.shape(case["recipe"]))
+    return case["kw"]["dim1"] % nd == case["kw"]["dim2"] % nd
 
 
 def _t_explog(case):
@@ -1426,9 +1477,8 @@ TRIGGERS = {
     "alpha_reversed": _t_alpha,
     "identity_exp": _t_identity_exp,
     "constdiag_solve_triangular": _t_constdiag,
-    "svd_added_diag_singular": _t_svd,
     "diag_solve_triangular_left": _t_diag_left,
-    "identity_mul_matrix": _t_identity_mul,
+    "transpose_same_dim": _t_transpose_same,
     "isclose_reversed_rtol": _t_isclose,
     "diagonal_args_ignored": _t_diagonal,
     "explog_offdiag": _t_explog,
